@@ -82,7 +82,7 @@ NON_MUTATING = {
     'os.O_WRONLY', 'os.O_CREAT', 'os.O_EXCL', 'os.O_TRUNC', 'os.O_RDONLY',
     'os.O_RDWR', 'os.O_APPEND', 'os.O_NOFOLLOW', 'os.O_CLOEXEC', 'os.O_DIRECTORY',
     'os.EX_OK', 'os.EX_USAGE', 'os.EX_IOERR', 'os.error', 'os.read', 'os.fstat',
-    'os.fsync', 'os.fdatasync', 'os.dup', 'os.devnull', 'os.altsep', 'os.extsep',
+    'os.fdopen', 'os.fsync', 'os.fdatasync', 'os.dup', 'os.devnull', 'os.altsep', 'os.extsep',
     'os.pathsep', 'os.get_exec_path', 'os.cpu_count', 'os.times', 'os.getlogin',
     'os.getppid', 'os.getgroups', 'os.path', 'os.scandir', 'os.statvfs',
     'shutil.Error', 'shutil.which', 'shutil.disk_usage', 'shutil.get_terminal_size',
